@@ -383,15 +383,31 @@ def run(ctx: lib.Ctx) -> None:
                 'instructions: UPDATE (add/remove, four map branches), GET_AND_UPDATE, GET, MEM, SIZE, ITER {CONS}, MAP {..}, '
                 'PUSH of literals (sorted, adjacent swap, duplicate, shuffled); the whole collection is read after every instruction. '
                 'non-trivial = some key is touched by at least two updating instructions.')
-    n_hist = ctx.n(56, 160)
+    n_hist = ctx.n(56, 360)
     max_len = ctx.n(30, 300)
     set_cases, map_cases, meta = [], [], []
-    for h in range(n_hist):
-        is_map = h % 2 == 1
-        t = rng.choice(KEY_TYPES) if rng.random() < 0.8 else V.gen_type(rng, 2, allow_never=False)
-        pool = gen_pool(rng, t, rng.randrange(3, 9))
-        n = rng.randrange(max_len // 3, max_len + 1) if rng.random() < 0.7 else rng.randrange(1, 8)
-        script = (gen_map_script if is_map else gen_set_script)(rng, t, pool, n)
+    # corpus: the histories of repaired defects run first (#11 MAP over composite keys, #4 pair order, #35 unit keys)
+    P = lambda a, b: ('pair', a, b)  # noqa: E731
+    tp = ('pair', ('int',), ('int',))
+    kp = [P(('int', 1), ('int', 5)), P(('int', 2), ('int', 3)), P(('int', 1), ('int', 2))]
+    tu = ('pair', ('unit',), ('option', ('unit',)))
+    ku = [P(('unit',), ('none',)), P(('unit',), ('some', ('unit',)))]
+    corpus = [
+        (True, tp, kp, [('update', kp[1], 3), ('update', kp[0], 1), ('update', kp[2], 2), ('iter',), ('mapadd', 10), ('iter',), ('get', kp[0]), ('mapconst', 0), ('size',)]),
+        (False, tp, kp, [('update', kp[1], True), ('update', kp[0], True), ('update', kp[2], True), ('iter',), ('push', [kp[2], kp[0], kp[1]]), ('push', [kp[0], kp[1]])]),
+        (False, tu, ku, [('push', ku), ('update', ku[1], True), ('update', ku[0], True), ('mem', ku[0]), ('update', ku[1], False), ('iter',)]),
+        (True, tu, ku, [('push', [(ku[0], 1), (ku[1], 2)]), ('gau', ku[0], None), ('mapadd', 1), ('iter',)]),
+    ]
+    ctx.corpus_cases = len(corpus)
+    for h in range(-len(corpus), n_hist):
+        if h < 0:
+            is_map, t, pool, script = corpus[h]
+        else:
+            is_map = h % 2 == 1
+            t = rng.choice(KEY_TYPES) if rng.random() < 0.8 else V.gen_type(rng, 2, allow_never=False)
+            pool = gen_pool(rng, t, rng.randrange(3, 9))
+            n = rng.randrange(max_len // 3, max_len + 1) if rng.random() < 0.7 else rng.randrange(1, 8)
+            script = (gen_map_script if is_map else gen_set_script)(rng, t, pool, n)
         ok, trace = lib.call(run_map_impl if is_map else run_set_impl, t, pool, script)
         if not ok:
             raise lib.InternalError(f'harness failure while running a history: {trace!r}')
